@@ -74,6 +74,15 @@ func c02Check(in []byte, m *stun.Message) (outcome, key, detail string) {
 					key, detail = k2+"/reused-message/"+c02EntryNames[e], "through "+c02EntryNames[e]+" after the Message held another message: "+d2
 					return
 				}
+				// the very same datagram once more into the same Message (a re-transmission, accepted or refused the
+				// first time): the verdict is a function of the bytes, not of having seen them before
+				c02Entry = e
+				_, k2, d2 = c02Check1(in, m)
+				c02Entry = 0
+				if k2 != "" {
+					key, detail = k2+"/same-datagram-again/"+c02EntryNames[e], "through "+c02EntryNames[e]+", the same datagram for the second time into the same Message: "+d2
+					return
+				}
 			}
 		}
 	}); p != "" {
